@@ -1,8 +1,1345 @@
-//! C14 - not built yet
+//! C14 - failures propagate: no call hangs and every handle learns why it stopped.
+//!
+//! Fault enumeration.  Part A: a reference conversation between a real client and a real listener over
+//! the in-memory pipe, cut at EVERY byte offset in either direction (EOF, reset, stall-then-EOF).
+//! Part B: a real client against the scripted peer, every kind of operation pending, and the peer
+//! closing / ending / detaching (with and without error) or the transport breaking under it.
+use crate::scen;
+use fe2o3_amqp::acceptor::{ConnectionAcceptor, LinkAcceptor, LinkEndpoint, SessionAcceptor};
+use fe2o3_amqp::link::receiver::CreditMode;
+use fe2o3_amqp::link::{Receiver, Sender};
+use fe2o3_amqp::{Connection, Session};
+use fe2o3_amqp_types::definitions::{self, AmqpError, Handle, SenderSettleMode};
+use fe2o3_amqp_types::messaging::Message;
+use fe2o3_amqp_types::performatives::*;
+use serde_amqp::Value;
+use serde_json::json;
+use std::sync::Arc;
+use std::time::Duration;
+use vlib::peer::{amqp_error, drive, settle, trace_to_strings, Auto};
 use vlib::report::{Ctx, Outcome};
+use vlib::explore::{explore, Bounds};
+use vlib::runner::{run_exec, RunCfg, Scenario};
+use vlib::util::{h64, par_map};
+use vlib::vpipe::{Fault, FaultMode, Pipe};
 
-pub fn run(_ctx: &Ctx) -> Outcome {
-    let mut out = Outcome::new("model_checking");
-    out.machinery_errors.push("check C14 is not built yet".into());
+const OP_TIMEOUT: Duration = Duration::from_secs(120);
+
+fn cond() -> definitions::Error {
+    amqp_error(AmqpError::ResourceLimitExceeded, "peer says no")
+}
+const COND_DBG: &str = "ResourceLimitExceeded";
+
+/// outcome of one public call: "ok", "err:<debug>", or "TIMEOUT"
+async fn op<T, E: std::fmt::Debug, F: std::future::Future<Output = Result<T, E>>>(f: F) -> String {
+    match tokio::time::timeout(OP_TIMEOUT, f).await {
+        Err(_) => "TIMEOUT".to_string(),
+        Ok(Ok(_)) => "ok".to_string(),
+        Ok(Err(e)) => format!("err:{:?}", e),
+    }
+}
+
+// ================================================================================================ Part B
+#[derive(Debug, Clone, Copy, PartialEq, Eq, Hash)]
+pub enum Pending {
+    Idle,
+    SendWaitingCredit,
+    SendAwaitingOutcome,
+    BatchableOutcome,
+    RecvWaiting,
+    AttachPending,
+    DetachPending,
+    EndPending,
+    ClosePending,
+}
+pub const PENDINGS: [Pending; 9] = [
+    Pending::Idle,
+    Pending::SendWaitingCredit,
+    Pending::SendAwaitingOutcome,
+    Pending::BatchableOutcome,
+    Pending::RecvWaiting,
+    Pending::AttachPending,
+    Pending::DetachPending,
+    Pending::EndPending,
+    Pending::ClosePending,
+];
+
+#[derive(Debug, Clone, Copy, PartialEq, Eq, Hash)]
+pub enum Flt {
+    PeerClose,
+    PeerCloseErr,
+    PeerCloseErrThenReset,
+    PeerCloseErrThenDrop,
+    PeerEnd,
+    PeerEndErr,
+    PeerDetachS,
+    PeerDetachSErr,
+    PeerDetachSOpenErr,
+    PeerDetachRErr,
+    PeerDetachROpenErr,
+    Eof,
+    Reset,
+}
+pub const FAULTS: [Flt; 13] = [
+    Flt::PeerClose,
+    Flt::PeerCloseErr,
+    Flt::PeerCloseErrThenReset,
+    Flt::PeerCloseErrThenDrop,
+    Flt::PeerEnd,
+    Flt::PeerEndErr,
+    Flt::PeerDetachS,
+    Flt::PeerDetachSErr,
+    Flt::PeerDetachSOpenErr,
+    Flt::PeerDetachRErr,
+    Flt::PeerDetachROpenErr,
+    Flt::Eof,
+    Flt::Reset,
+];
+
+
+fn conn_level(f: Flt) -> bool {
+    matches!(f, Flt::PeerClose | Flt::PeerCloseErr | Flt::PeerCloseErrThenReset | Flt::PeerCloseErrThenDrop | Flt::Eof | Flt::Reset)
+}
+fn sess_level(f: Flt) -> bool {
+    matches!(f, Flt::PeerEnd | Flt::PeerEndErr)
+}
+fn s_link(f: Flt) -> bool {
+    matches!(f, Flt::PeerDetachS | Flt::PeerDetachSErr | Flt::PeerDetachSOpenErr)
+}
+fn r_link(f: Flt) -> bool {
+    matches!(f, Flt::PeerDetachRErr | Flt::PeerDetachROpenErr)
+}
+fn carries(f: Flt) -> bool {
+    matches!(f, Flt::PeerCloseErr | Flt::PeerCloseErrThenReset | Flt::PeerCloseErrThenDrop | Flt::PeerEndErr | Flt::PeerDetachSErr | Flt::PeerDetachSOpenErr | Flt::PeerDetachRErr | Flt::PeerDetachROpenErr)
+}
+/// does the fault stop the scope the pending operation works on (so that the operation has to complete)?
+/// A pending operation on another scope legitimately stays pending: the scripted peer never answers it.
+fn pending_affected(pd: Pending, f: Flt) -> bool {
+    match pd {
+        Pending::Idle => false,
+        Pending::SendWaitingCredit | Pending::SendAwaitingOutcome | Pending::BatchableOutcome | Pending::DetachPending => conn_level(f) || sess_level(f) || s_link(f),
+        Pending::RecvWaiting => conn_level(f) || sess_level(f) || r_link(f),
+        Pending::AttachPending | Pending::EndPending => conn_level(f) || sess_level(f),
+        Pending::ClosePending => conn_level(f),
+    }
+}
+fn is_teardown(pd: Pending) -> bool {
+    matches!(pd, Pending::DetachPending | Pending::EndPending | Pending::ClosePending)
+}
+
+#[derive(Debug, Clone, Default)]
+pub struct BObs {
+    pub pending_result: String,
+    pub followups: Vec<(String, String)>,
+    pub alive_tasks_end: usize,
+    pub trace: Vec<String>,
+    pub machinery: Option<String>,
+    pub pending_was_pending: bool,
+}
+
+pub async fn scenario_b(pd: Pending, flt: Flt) -> BObs {
+    let mut obs = BObs::default();
+    let mut auto = Auto::default();
+    auto.max_frame_size = 4096;
+    let mut c = match scen::open_client(auto, 4096).await {
+        Ok(c) => c,
+        Err(e) => {
+            obs.machinery = Some(e);
+            return obs;
+        }
+    };
+    c.pipe.set_shutdown_fails_when_broken(true);
+    let mut session = match scen::begin(&mut c, Session::builder()).await {
+        Ok(s) => s,
+        Err(e) => {
+            obs.machinery = Some(e);
+            return obs;
+        }
+    };
+    // sender S (unsettled, no credit granted yet) and receiver R
+    let s = drive(&mut c.peer, Sender::builder().name("s").target("q").sender_settle_mode(SenderSettleMode::Unsettled).attach(&mut session), scen::H).await;
+    let mut sender = match s {
+        Some(Ok(s)) => s,
+        _ => {
+            obs.machinery = Some("sender attach failed".into());
+            return obs;
+        }
+    };
+    let s_lib_handle = c.peer.links.last().map(|l| l.lib_handle).unwrap_or(0);
+    let s_our_handle = c.peer.links.last().map(|l| l.our_handle).unwrap_or(0);
+    let r = drive(&mut c.peer, Receiver::builder().name("r").source("q").credit_mode(CreditMode::Auto(5)).attach(&mut session), scen::H).await;
+    let mut receiver = match r {
+        Some(Ok(r)) => r,
+        _ => {
+            obs.machinery = Some("receiver attach failed".into());
+            return obs;
+        }
+    };
+    let r_our_handle = c.peer.links.last().map(|l| l.our_handle).unwrap_or(1);
+    settle(&mut c.peer, 1).await;
+    // ---- start the pending operation in its own task (it owns the handle it operates on and hands it back)
+    enum Back {
+        S(Sender),
+        R(Receiver),
+        Sess(fe2o3_amqp::session::SessionHandle<()>),
+        None,
+    }
+    let mut sender_opt = Some(sender);
+    let mut receiver_opt = Some(receiver);
+    let mut session_opt = Some(session);
+    let mut conn_opt = Some(c.conn);
+    let pending_task: Option<tokio::task::JoinHandle<(String, Back)>> = match pd {
+        Pending::Idle => None,
+        Pending::SendWaitingCredit => {
+            let mut s = sender_opt.take().unwrap();
+            Some(tokio::spawn(async move {
+                let r = op(s.send("waiting for credit")).await;
+                (r, Back::S(s))
+            }))
+        }
+        Pending::SendAwaitingOutcome | Pending::BatchableOutcome => {
+            c.peer.grant(0, s_lib_handle, 10);
+            settle(&mut c.peer, 1).await;
+            let mut s = sender_opt.take().unwrap();
+            let batch = pd == Pending::BatchableOutcome;
+            Some(tokio::spawn(async move {
+                let r = if batch {
+                    match s.send_batchable("outcome outstanding").await {
+                        Ok(fut) => op(fut).await,
+                        Err(e) => format!("err:{:?}", e),
+                    }
+                } else {
+                    op(s.send("outcome outstanding")).await
+                };
+                (r, Back::S(s))
+            }))
+        }
+        Pending::RecvWaiting => {
+            let mut r = receiver_opt.take().unwrap();
+            Some(tokio::spawn(async move {
+                let res = op(r.recv::<Value>()).await;
+                (res, Back::R(r))
+            }))
+        }
+        Pending::AttachPending => {
+            c.peer.auto.attach = false;
+            let mut sess = session_opt.take().unwrap();
+            Some(tokio::spawn(async move {
+                let res = op(Sender::attach(&mut sess, "s2", "q2")).await;
+                (res, Back::Sess(sess))
+            }))
+        }
+        Pending::DetachPending => {
+            c.peer.auto.detach = false;
+            let s = sender_opt.take().unwrap();
+            Some(tokio::spawn(async move {
+                let res = op(s.close()).await;
+                (res, Back::None)
+            }))
+        }
+        Pending::EndPending => {
+            c.peer.auto.end = false;
+            let mut sess = session_opt.take().unwrap();
+            Some(tokio::spawn(async move {
+                let res = op(sess.end()).await;
+                (res, Back::Sess(sess))
+            }))
+        }
+        Pending::ClosePending => {
+            c.peer.auto.close = false;
+            let mut conn = conn_opt.take().unwrap();
+            Some(tokio::spawn(async move {
+                let res = op(conn.close()).await;
+                drop(conn);
+                (res, Back::None)
+            }))
+        }
+    };
+    settle(&mut c.peer, 2).await;
+    obs.pending_was_pending = pending_task.as_ref().map(|t| !t.is_finished()).unwrap_or(false);
+    // ---- the fault
+    match flt {
+        Flt::PeerClose => c.peer.send(0, Performative::Close(Close { error: None })),
+        Flt::PeerCloseErr => c.peer.send(0, Performative::Close(Close { error: Some(cond()) })),
+        Flt::PeerCloseErrThenReset => {
+            c.peer.send(0, Performative::Close(Close { error: Some(cond()) }));
+            settle(&mut c.peer, 1).await;
+            c.pipe.break_now(FaultMode::Reset);
+        }
+        Flt::PeerCloseErrThenDrop => {
+            // the peer goes away right behind its close frame: the frame can still be read and the local
+            // socket still takes the reply, but shutting the transport down fails (ENOTCONN)
+            c.peer.send(0, Performative::Close(Close { error: Some(cond()) }));
+            c.pipe.set_shutdown_fails(true);
+        }
+        Flt::PeerEnd => c.peer.send(0, Performative::End(End { error: None })),
+        Flt::PeerEndErr => c.peer.send(0, Performative::End(End { error: Some(cond()) })),
+        Flt::PeerDetachS => c.peer.send(0, Performative::Detach(Detach { handle: Handle(s_our_handle), closed: true, error: None })),
+        Flt::PeerDetachSErr => c.peer.send(0, Performative::Detach(Detach { handle: Handle(s_our_handle), closed: true, error: Some(cond()) })),
+        Flt::PeerDetachSOpenErr => c.peer.send(0, Performative::Detach(Detach { handle: Handle(s_our_handle), closed: false, error: Some(cond()) })),
+        Flt::PeerDetachRErr => c.peer.send(0, Performative::Detach(Detach { handle: Handle(r_our_handle), closed: true, error: Some(cond()) })),
+        Flt::PeerDetachROpenErr => c.peer.send(0, Performative::Detach(Detach { handle: Handle(r_our_handle), closed: false, error: Some(cond()) })),
+        Flt::Eof => c.pipe.break_now(FaultMode::Eof),
+        Flt::Reset => c.pipe.break_now(FaultMode::Reset),
+    }
+    settle(&mut c.peer, 3).await;
+    // ---- collect the pending operation (its own time-out bounds it)
+    if let Some(t) = pending_task.filter(|t| {
+        // an operation on a scope the fault did not stop legitimately stays pending (nobody answers it):
+        // cancel it; its handle goes with it
+        if !pending_affected(pd, flt) && !t.is_finished() {
+            match pd {
+                // a teardown the fault does not concern: the peer now answers it (a peer that never
+                // answers a close is outside the property) and the call has to return
+                Pending::ClosePending => {
+                    c.peer.send(0, Performative::Close(Close { error: None }));
+                    true
+                }
+                Pending::EndPending => {
+                    c.peer.send(0, Performative::End(End { error: None }));
+                    true
+                }
+                Pending::DetachPending => {
+                    c.peer.send(0, Performative::Detach(Detach { handle: Handle(s_our_handle), closed: true, error: None }));
+                    true
+                }
+                _ => {
+                    t.abort();
+                    obs.pending_result = "unaffected".into();
+                    false
+                }
+            }
+        } else {
+            true
+        }
+    }) {
+        // keep the scripted peer answering while we wait
+        let joined = drive(&mut c.peer, t, OP_TIMEOUT + Duration::from_secs(5)).await;
+        match joined {
+            Some(Ok((res, back))) => {
+                obs.pending_result = res;
+                match back {
+                    Back::S(s) => sender_opt = Some(s),
+                    Back::R(r) => receiver_opt = Some(r),
+                    Back::Sess(s) => session_opt = Some(s),
+                    Back::None => {}
+                }
+            }
+            Some(Err(e)) => obs.pending_result = format!("TASK-PANIC:{e}"),
+            None => obs.pending_result = "TIMEOUT".into(),
+        }
+    }
+    // from here on the peer answers everything again (a conforming peer that is still there)
+    c.peer.auto.attach = true;
+    c.peer.auto.detach = true;
+    c.peer.auto.end = true;
+    c.peer.auto.close = true;
+    // ---- follow-up operations on every handle
+    let (cl, sl) = (conn_level(flt), sess_level(flt));
+    if let Some(s) = sender_opt.as_mut().filter(|_| cl || sl || s_link(flt)) {
+        let r = drive(&mut c.peer, op(s.send("after the fault")), OP_TIMEOUT + Duration::from_secs(5)).await.unwrap_or("TIMEOUT".into());
+        obs.followups.push(("send".into(), r));
+    }
+    if let Some(r) = receiver_opt.as_mut().filter(|_| cl || sl || r_link(flt)) {
+        let res = drive(&mut c.peer, op(r.recv::<Value>()), OP_TIMEOUT + Duration::from_secs(5)).await.unwrap_or("TIMEOUT".into());
+        obs.followups.push(("recv".into(), res));
+    }
+    if let Some(sess) = session_opt.as_mut().filter(|_| cl || sl) {
+        let res = drive(&mut c.peer, op(Sender::attach(sess, "s3", "q3")), OP_TIMEOUT + Duration::from_secs(5)).await.unwrap_or("TIMEOUT".into());
+        obs.followups.push(("attach".into(), res));
+    }
+    if let Some(conn) = conn_opt.as_mut().filter(|_| cl) {
+        let res = drive(&mut c.peer, op(Session::begin(conn)), OP_TIMEOUT + Duration::from_secs(5)).await.unwrap_or("TIMEOUT".into());
+        obs.followups.push(("begin".into(), res));
+    }
+    if let Some(s) = sender_opt.take() {
+        let res = drive(&mut c.peer, op(s.close()), OP_TIMEOUT + Duration::from_secs(5)).await.unwrap_or("TIMEOUT".into());
+        obs.followups.push(("sender.close".into(), res));
+    }
+    if let Some(r) = receiver_opt.take() {
+        let res = drive(&mut c.peer, op(r.close()), OP_TIMEOUT + Duration::from_secs(5)).await.unwrap_or("TIMEOUT".into());
+        obs.followups.push(("receiver.close".into(), res));
+    }
+    if let Some(mut sess) = session_opt.take() {
+        let res = drive(&mut c.peer, op(sess.end()), OP_TIMEOUT + Duration::from_secs(5)).await.unwrap_or("TIMEOUT".into());
+        obs.followups.push(("session.end".into(), res));
+    }
+    if let Some(mut conn) = conn_opt.take() {
+        let res = drive(&mut c.peer, op(conn.close()), OP_TIMEOUT + Duration::from_secs(5)).await.unwrap_or("TIMEOUT".into());
+        obs.followups.push(("connection.close".into(), res));
+    }
+    settle(&mut c.peer, 3).await;
+    obs.alive_tasks_end = tokio::runtime::Handle::current().metrics().num_alive_tasks();
+    obs.trace = trace_to_strings(&c.peer.trace);
+    obs
+}
+
+fn judge_b(pd: Pending, flt: Flt, o: &BObs, panics: &[String]) -> Vec<(String, String)> {
+    let mut f = vec![];
+    let what = format!("pending={:?} fault={:?}", pd, flt);
+    let all = || format!("pending op -> {}; follow-ups {:?}", o.pending_result, o.followups);
+    let (cl, sl, s_l, r_l) = (conn_level(flt), sess_level(flt), s_link(flt), r_link(flt));
+    let scope_name = if cl { "connection" } else if sl { "session" } else { "link" };
+    for p in panics.iter().filter(|p| !p.contains("vcheck/src")) {
+        f.push((format!("panic fault={:?}", flt), format!("{what}: a library task panicked: {p}")));
+    }
+    // ---- nothing hangs
+    if o.pending_result == "TIMEOUT" {
+        f.push((format!("pending-op-hangs pending={:?} fault={:?}", pd, flt), format!("{what}: the operation in progress never completed (120 s of virtual time); {}", all())));
+    }
+    for (name, r) in &o.followups {
+        if r == "TIMEOUT" {
+            f.push((format!("op-after-fault-hangs op={name} fault={:?}", flt), format!("{what}: {name} issued after the fault never completed; {}", all())));
+        }
+    }
+    // ---- data-path operations on a stopped scope fail (the follow-ups were only issued on stopped scopes)
+    for (name, r) in &o.followups {
+        if matches!(name.as_str(), "send" | "recv" | "attach" | "begin") && r == "ok" {
+            f.push((format!("op-after-fault-succeeds op={name} fault={:?}", flt), format!("{what}: {name} returned Ok although its {scope_name} had stopped; {}", all())));
+        }
+    }
+    let data_pending = matches!(pd, Pending::SendWaitingCredit | Pending::SendAwaitingOutcome | Pending::BatchableOutcome | Pending::RecvWaiting | Pending::AttachPending);
+    if data_pending && pending_affected(pd, flt) && o.pending_was_pending && o.pending_result == "ok" {
+        f.push((format!("pending-op-succeeds pending={:?} fault={:?}", pd, flt), format!("{what}: the operation in progress returned Ok although its {scope_name} stopped; {}", all())));
+    }
+    // ---- what the errors say.  Judged on the FIRST operation that observes the stop on each handle (later
+    // calls on a handle that already reported why it stopped may say anything, e.g. IllegalState), and only
+    // when the application had not itself started tearing a scope down (then "ended"/"closed" is the truth).
+    if !is_teardown(pd) {
+        let fu = |n: &str| o.followups.iter().find(|(name, _)| name == n).map(|(_, r)| r.clone());
+        let pending_first = |on_sender: bool| -> Option<String> {
+            let mine = match pd {
+                // (the future of a batchable send is detached from the handle: it only has to fail; the
+                // handle itself learns why through its next call)
+                Pending::SendWaitingCredit | Pending::SendAwaitingOutcome => on_sender,
+                Pending::RecvWaiting => !on_sender,
+                _ => false,
+            };
+            (mine && o.pending_was_pending && pending_affected(pd, flt)).then(|| o.pending_result.clone())
+        };
+        let mut firsts: Vec<(&str, String)> = vec![];
+        if cl || sl || s_l {
+            if let Some(r) = pending_first(true).or_else(|| fu("send")) {
+                firsts.push(("send", r));
+            }
+        }
+        if cl || sl || r_l {
+            if let Some(r) = pending_first(false).or_else(|| fu("recv")) {
+                firsts.push(("recv", r));
+            }
+        }
+        for (name, r) in firsts {
+            if !r.starts_with("err:") {
+                continue;
+            }
+            if carries(flt) && !r.contains(COND_DBG) {
+                f.push((format!("peer-error-lost op={name} fault={:?}", flt), format!("{what}: the peer supplied the condition resource-limit-exceeded but the first {name} to observe the stop reports {r}; {}", all())));
+            }
+            let scope_ok = if cl {
+                r.contains("Connection") || r.contains("Transport") || r.contains("Io(")
+            } else if sl {
+                r.contains("Session") || r.contains("RemoteEnded")
+            } else {
+                r.contains("Detach") || r.contains("RemoteClosed") || r.contains("Closed")
+            };
+            if !scope_ok {
+                f.push((format!("wrong-scope op={name} fault={:?}", flt), format!("{what}: the first {name} to observe the stop reports {r}, which does not say that the {scope_name} stopped; {}", all())));
+            }
+        }
+    }
+    // ---- the handle of the stopped scope reports the peer's / the transport's error itself (first teardown call on it)
+    let conn_first = if pd == Pending::ClosePending { Some(o.pending_result.clone()) } else { o.followups.iter().find(|(n, _)| n == "connection.close").map(|(_, r)| r.clone()) };
+    if let Some(r) = conn_first {
+        if matches!(flt, Flt::PeerCloseErr | Flt::PeerCloseErrThenReset | Flt::PeerCloseErrThenDrop) && !r.contains(COND_DBG) {
+            f.push((format!("connection-handle-lost-peer-error fault={:?}", flt), format!("{what}: connection.close() reports {r}, the peer closed with resource-limit-exceeded; {}", all())));
+        }
+        if matches!(flt, Flt::Eof | Flt::Reset) && r == "ok" {
+            f.push((format!("connection-handle-hides-transport-failure fault={:?}", flt), format!("{what}: the transport broke but connection.close() returned Ok; {}", all())));
+        }
+    }
+    let sess_first = if pd == Pending::EndPending { Some(o.pending_result.clone()) } else { o.followups.iter().find(|(n, _)| n == "session.end").map(|(_, r)| r.clone()) };
+    if let Some(r) = sess_first {
+        // (not judged when the application was already closing the whole connection: then the session
+        // went down with it and "closed" is the truth)
+        if flt == Flt::PeerEndErr && pd != Pending::ClosePending && !r.contains(COND_DBG) {
+            f.push(("session-handle-lost-peer-error".into(), format!("{what}: session.end() reports {r}, the peer ended with resource-limit-exceeded; {}", all())));
+        }
+    }
+    if pd == Pending::DetachPending && matches!(flt, Flt::PeerDetachSErr) && !o.pending_result.contains(COND_DBG) {
+        f.push(("link-handle-lost-peer-error".into(), format!("{what}: sender.close() reports {}, the peer closed the link with resource-limit-exceeded", o.pending_result)));
+    }
+    // ---- all engine tasks terminate once the connection stopped and every handle is gone
+    if o.alive_tasks_end > 0 && cl {
+        f.push((format!("engine-tasks-alive fault={:?}", flt), format!("{what}: {} task(s) still alive after every handle was closed/dropped", o.alive_tasks_end)));
+    }
+    f
+}
+
+// ================================================================================================ Part A
+#[derive(Debug, Clone, Default)]
+pub struct AObs {
+    pub ops: Vec<(String, String, bool)>, // (name, result, issued after the fault fired)
+    pub listener: Vec<String>,
+    pub alive_tasks_end: usize,
+    pub bytes: [usize; 2],
+    pub broken: bool,
+}
+
+/// the reference conversation; `fault` = None measures the byte counts
+pub async fn scenario_a(fault: Option<Fault>) -> AObs {
+    let mut obs = AObs::default();
+    let (pipe, a, b) = Pipe::new();
+    pipe.set_shutdown_fails_when_broken(true);
+    if let Some(f) = fault {
+        pipe.set_fault(f);
+    }
+    // ---------------- listener
+    let lst = tokio::spawn(async move {
+        let mut log = vec![];
+        let acceptor = ConnectionAcceptor::new("listener");
+        let mut conn = match tokio::time::timeout(OP_TIMEOUT, acceptor.accept(b)).await {
+            Ok(Ok(c)) => c,
+            Ok(Err(e)) => return vec![format!("accept err:{:?}", e)],
+            Err(_) => return vec!["accept TIMEOUT".to_string()],
+        };
+        let sacc = SessionAcceptor::default();
+        let mut session = match tokio::time::timeout(OP_TIMEOUT, sacc.accept(&mut conn)).await {
+            Ok(Ok(s)) => s,
+            Ok(Err(e)) => {
+                log.push(format!("session accept err:{:?}", e));
+                log.push(format!("conn.on_close {}", op(conn.on_close()).await));
+                return log;
+            }
+            Err(_) => return vec!["session accept TIMEOUT".to_string()],
+        };
+        let lacc = LinkAcceptor::new();
+        let mut link_tasks = vec![];
+        for _ in 0..2 {
+            match tokio::time::timeout(OP_TIMEOUT, lacc.accept(&mut session)).await {
+                Ok(Ok(LinkEndpoint::Receiver(mut r))) => link_tasks.push(tokio::spawn(async move {
+                    let mut l = vec![];
+                    loop {
+                        match tokio::time::timeout(OP_TIMEOUT, r.recv::<Value>()).await {
+                            Ok(Ok(d)) => {
+                                l.push("listener recv ok".to_string());
+                                let _ = tokio::time::timeout(OP_TIMEOUT, r.accept(&d)).await;
+                            }
+                            Ok(Err(e)) => {
+                                l.push(format!("listener recv err:{:?}", e));
+                                break;
+                            }
+                            Err(_) => {
+                                l.push("listener recv TIMEOUT".to_string());
+                                break;
+                            }
+                        }
+                    }
+                    l.push(format!("listener receiver.close {}", op(r.close()).await));
+                    l
+                })),
+                Ok(Ok(LinkEndpoint::Sender(mut s))) => link_tasks.push(tokio::spawn(async move {
+                    let mut l = vec![];
+                    l.push(format!("listener send {}", op(s.send("from the listener")).await));
+                    l.push(format!("listener sender.on_detach {:?}", tokio::time::timeout(OP_TIMEOUT, s.on_detach()).await.map(|e| format!("{:?}", e)).unwrap_or("TIMEOUT".into())));
+                    l.push(format!("listener sender.close {}", op(s.close()).await));
+                    l
+                })),
+                Ok(Err(e)) => {
+                    log.push(format!("link accept err:{:?}", e));
+                    break;
+                }
+                Err(_) => {
+                    log.push("link accept TIMEOUT".to_string());
+                    break;
+                }
+            }
+        }
+        log.push(format!("session.on_end {}", op(session.on_end()).await));
+        for t in link_tasks {
+            match tokio::time::timeout(OP_TIMEOUT * 3, t).await {
+                Ok(Ok(l)) => log.extend(l),
+                Ok(Err(e)) => log.push(format!("listener link task died: {e}")),
+                Err(_) => log.push("listener link task TIMEOUT".to_string()),
+            }
+        }
+        log.push(format!("conn.on_close {}", op(conn.on_close()).await));
+        log
+    });
+    // ---------------- client
+    let p = pipe.clone();
+    let mut ops: Vec<(String, String, bool)> = vec![];
+    macro_rules! step {
+        ($name:expr, $fut:expr) => {{
+            let after = p.broken();
+            let r = op($fut).await;
+            ops.push(($name.to_string(), r.clone(), after));
+            r
+        }};
+    }
+    let conn = tokio::time::timeout(OP_TIMEOUT, Connection::builder().container_id("client").max_frame_size(512).open_with_stream(a)).await;
+    match conn {
+        Err(_) => ops.push(("open".into(), "TIMEOUT".into(), false)),
+        Ok(Err(e)) => ops.push(("open".into(), format!("err:{:?}", e), false)),
+        Ok(Ok(mut conn)) => {
+            ops.push(("open".into(), "ok".into(), false));
+            let after = p.broken();
+            match tokio::time::timeout(OP_TIMEOUT, Session::begin(&mut conn)).await {
+                Err(_) => ops.push(("begin".into(), "TIMEOUT".into(), after)),
+                Ok(Err(e)) => ops.push(("begin".into(), format!("err:{:?}", e), after)),
+                Ok(Ok(mut session)) => {
+                    ops.push(("begin".into(), "ok".into(), after));
+                    let after = p.broken();
+                    let s = tokio::time::timeout(OP_TIMEOUT, Sender::attach(&mut session, "c-s", "q")).await;
+                    let after_r = p.broken();
+                    let r = tokio::time::timeout(OP_TIMEOUT, Receiver::attach(&mut session, "c-r", "q")).await;
+                    match s {
+                        Err(_) => ops.push(("attach sender".into(), "TIMEOUT".into(), after)),
+                        Ok(Err(e)) => ops.push(("attach sender".into(), format!("err:{:?}", e), after)),
+                        Ok(Ok(mut sender)) => {
+                            ops.push(("attach sender".into(), "ok".into(), after));
+                            step!("send small", sender.send("hello"));
+                            step!("send multi-frame", sender.send("x".repeat(1300)));
+                            let after_b = p.broken();
+                            match tokio::time::timeout(OP_TIMEOUT, sender.send_batchable("batchable")).await {
+                                Ok(Ok(fut)) => {
+                                    step!("send after batchable", sender.send("one more"));
+                                    let rr = op(fut).await;
+                                    ops.push(("batchable outcome".into(), rr, after_b));
+                                }
+                                Ok(Err(e)) => ops.push(("send_batchable".into(), format!("err:{:?}", e), after_b)),
+                                Err(_) => ops.push(("send_batchable".into(), "TIMEOUT".into(), after_b)),
+                            }
+                            step!("sender.close", sender.close());
+                        }
+                    }
+                    match r {
+                        Err(_) => ops.push(("attach receiver".into(), "TIMEOUT".into(), after_r)),
+                        Ok(Err(e)) => ops.push(("attach receiver".into(), format!("err:{:?}", e), after_r)),
+                        Ok(Ok(mut receiver)) => {
+                            ops.push(("attach receiver".into(), "ok".into(), after_r));
+                            let after = p.broken();
+                            match tokio::time::timeout(OP_TIMEOUT, receiver.recv::<Value>()).await {
+                                Ok(Ok(d)) => {
+                                    ops.push(("recv".into(), "ok".into(), after));
+                                    step!("accept", receiver.accept(&d));
+                                }
+                                Ok(Err(e)) => ops.push(("recv".into(), format!("err:{:?}", e), after)),
+                                Err(_) => ops.push(("recv".into(), "TIMEOUT".into(), after)),
+                            }
+                            step!("receiver.close", receiver.close());
+                        }
+                    }
+                    step!("session.end", session.end());
+                }
+            }
+            step!("connection.close", conn.close());
+        }
+    }
+    obs.ops = ops;
+    obs.listener = match tokio::time::timeout(OP_TIMEOUT * 6, lst).await {
+        Ok(Ok(l)) => l,
+        Ok(Err(e)) => vec![format!("listener task died: {e}")],
+        Err(_) => vec!["listener TIMEOUT".to_string()],
+    };
+    tokio::time::sleep(Duration::from_millis(5)).await;
+    obs.alive_tasks_end = tokio::runtime::Handle::current().metrics().num_alive_tasks();
+    obs.bytes = [pipe.written(0), pipe.written(1)];
+    obs.broken = pipe.broken();
+    obs
+}
+
+fn judge_a(fault: &Fault, o: &AObs, panics: &[String]) -> Vec<(String, String)> {
+    let mut f = vec![];
+    let mode = match fault.mode {
+        FaultMode::Eof => "eof",
+        FaultMode::Reset => "reset",
+        FaultMode::StallThenEof(_) => "stall-then-eof",
+    };
+    let what = format!("transport cut ({mode}) after {} bytes {}", fault.at, if fault.dir == 0 { "client->listener" } else { "listener->client" });
+    for p in panics.iter().filter(|p| !p.contains("vcheck/src")) {
+        f.push((format!("panic transport-{mode}"), format!("{what}: a library task panicked: {p}")));
+    }
+    for (name, r, _) in &o.ops {
+        if r == "TIMEOUT" {
+            f.push((format!("client-op-hangs op={name} transport-{mode}"), format!("{what}: client {name} never completed; client ops {:?}", o.ops)));
+        }
+    }
+    for l in &o.listener {
+        if l.contains("TIMEOUT") {
+            f.push((format!("listener-op-hangs {} transport-{mode}", l.split(' ').take(3).collect::<Vec<_>>().join(" ")), format!("{what}: listener side: {l}; listener log {:?}", o.listener)));
+        }
+        if l.contains("task died") {
+            f.push((format!("listener-task-died transport-{mode}"), format!("{what}: {l}")));
+        }
+    }
+    // data-path operations issued after the cut fail
+    for (name, r, after) in &o.ops {
+        if *after && r == "ok" && matches!(name.as_str(), "begin" | "attach sender" | "attach receiver" | "send small" | "send multi-frame" | "send after batchable" | "batchable outcome") {
+            f.push((format!("op-after-cut-succeeds op={name} transport-{mode}"), format!("{what}: client {name} was issued after the transport broke and returned Ok; ops {:?}", o.ops)));
+        }
+    }
+    // the connection handle reports the failure
+    if o.broken {
+        if let Some((_, r, _)) = o.ops.iter().find(|(n, _, _)| n == "connection.close") {
+            // a cut after the library had already received the peer's close may legitimately be clean
+            let closes_exchanged = o.listener.iter().any(|l| l.starts_with("conn.on_close ok"));
+            if r == "ok" && !closes_exchanged {
+                f.push((format!("connection-handle-hides-transport-failure transport-{mode}"), format!("{what}: connection.close() returned Ok; listener log {:?}", o.listener)));
+            }
+        }
+    }
+    if o.alive_tasks_end > 0 {
+        f.push((format!("engine-tasks-alive transport-{mode}"), format!("{what}: {} task(s) still alive after both sides finished", o.alive_tasks_end)));
+    }
+    f
+}
+
+
+// ================================================================================================ Part C
+/// peer-initiated close / end / detach, injected behind every write of the library in a reference conversation
+#[derive(Debug, Clone, Copy, PartialEq, Eq, Hash)]
+pub enum CK {
+    Close,
+    CloseErr,
+    End,
+    EndErr,
+    DetachS,
+    DetachSErr,
+    DetachSOpenErr,
+    DetachR,
+    DetachRErr,
+    DetachROpenErr,
+}
+pub const CKS: [CK; 10] = [CK::Close, CK::CloseErr, CK::End, CK::EndErr, CK::DetachS, CK::DetachSErr, CK::DetachSOpenErr, CK::DetachR, CK::DetachRErr, CK::DetachROpenErr];
+
+impl CK {
+    fn perf(self) -> Performative {
+        let e = Some(cond());
+        match self {
+            CK::Close => Performative::Close(Close { error: None }),
+            CK::CloseErr => Performative::Close(Close { error: e }),
+            CK::End => Performative::End(End { error: None }),
+            CK::EndErr => Performative::End(End { error: e }),
+            CK::DetachS => Performative::Detach(Detach { handle: Handle(0), closed: true, error: None }),
+            CK::DetachSErr => Performative::Detach(Detach { handle: Handle(0), closed: true, error: e }),
+            CK::DetachSOpenErr => Performative::Detach(Detach { handle: Handle(0), closed: false, error: e }),
+            CK::DetachR => Performative::Detach(Detach { handle: Handle(1), closed: true, error: None }),
+            CK::DetachRErr => Performative::Detach(Detach { handle: Handle(1), closed: true, error: e }),
+            CK::DetachROpenErr => Performative::Detach(Detach { handle: Handle(1), closed: false, error: e }),
+        }
+    }
+    fn conn(self) -> bool {
+        matches!(self, CK::Close | CK::CloseErr)
+    }
+    fn sess(self) -> bool {
+        matches!(self, CK::End | CK::EndErr)
+    }
+    fn on_s(self) -> bool {
+        matches!(self, CK::DetachS | CK::DetachSErr | CK::DetachSOpenErr)
+    }
+    fn on_r(self) -> bool {
+        matches!(self, CK::DetachR | CK::DetachRErr | CK::DetachROpenErr)
+    }
+    fn carries(self) -> bool {
+        matches!(self, CK::CloseErr | CK::EndErr | CK::DetachSErr | CK::DetachSOpenErr | CK::DetachRErr | CK::DetachROpenErr)
+    }
+}
+
+#[derive(Debug, Clone, Default)]
+pub struct CObs {
+    pub ops: Vec<(String, String, bool)>,
+    pub alive_tasks_end: usize,
+    pub fired: bool,
+    pub trace: Vec<String>,
+    /// (library bytes written so far, what the peer had sent by then) behind every write call of the library
+    pub points: Vec<(usize, PeerSent)>,
+    pub client_hung: bool,
+}
+#[derive(Debug, Clone, Copy, Default, PartialEq, Eq)]
+pub struct PeerSent {
+    pub open: bool,
+    pub begin: bool,
+    pub attach_s: bool,
+    pub attach_r: bool,
+    pub detach_s: bool,
+    pub detach_r: bool,
+    pub end: bool,
+    pub close: bool,
+}
+
+pub async fn scenario_c(inject: Option<(usize, CK)>) -> CObs {
+    let mut obs = CObs::default();
+    let (pipe, a, _b) = Pipe::new();
+    let mut auto = Auto::default();
+    auto.grant_credit = Some(100);
+    auto.accept_transfers = true;
+    let mut peer = vlib::peer::Peer::new(pipe.clone(), 1, auto);
+    if let Some((at, k)) = inject {
+        peer.send_when_lib_wrote(at, 0, k.perf());
+    }
+    let p = pipe.clone();
+    let client = tokio::spawn(async move {
+        let mut ops: Vec<(String, String, bool)> = vec![];
+        macro_rules! step {
+            ($name:expr, $fut:expr) => {{
+                let after = p.inject_fired();
+                let r = op($fut).await;
+                ops.push(($name.to_string(), r.clone(), after));
+                r
+            }};
+        }
+        let conn = tokio::time::timeout(OP_TIMEOUT, Connection::builder().container_id("client").max_frame_size(512).open_with_stream(a)).await;
+        match conn {
+            Err(_) => ops.push(("open".into(), "TIMEOUT".into(), false)),
+            Ok(Err(e)) => ops.push(("open".into(), format!("err:{:?}", e), false)),
+            Ok(Ok(mut conn)) => {
+                ops.push(("open".into(), "ok".into(), false));
+                let after = p.inject_fired();
+                match tokio::time::timeout(OP_TIMEOUT, Session::begin(&mut conn)).await {
+                    Err(_) => ops.push(("begin".into(), "TIMEOUT".into(), after)),
+                    Ok(Err(e)) => ops.push(("begin".into(), format!("err:{:?}", e), after)),
+                    Ok(Ok(mut session)) => {
+                        ops.push(("begin".into(), "ok".into(), after));
+                        let after = p.inject_fired();
+                        let s = tokio::time::timeout(OP_TIMEOUT, Sender::attach(&mut session, "c-s", "q")).await;
+                        let after_r = p.inject_fired();
+                        let r = tokio::time::timeout(OP_TIMEOUT, Receiver::attach(&mut session, "c-r", "q")).await;
+                        match s {
+                            Err(_) => ops.push(("attach sender".into(), "TIMEOUT".into(), after)),
+                            Ok(Err(e)) => ops.push(("attach sender".into(), format!("err:{:?}", e), after)),
+                            Ok(Ok(mut sender)) => {
+                                ops.push(("attach sender".into(), "ok".into(), after));
+                                step!("send small", sender.send("hello"));
+                                step!("send multi-frame", sender.send("x".repeat(1300)));
+                                let after_b = p.inject_fired();
+                                match tokio::time::timeout(OP_TIMEOUT, sender.send_batchable("batchable")).await {
+                                    Ok(Ok(fut)) => {
+                                        step!("send after batchable", sender.send("one more"));
+                                        let rr = op(fut).await;
+                                        ops.push(("batchable outcome".into(), rr, after_b));
+                                    }
+                                    Ok(Err(e)) => ops.push(("send_batchable".into(), format!("err:{:?}", e), after_b)),
+                                    Err(_) => ops.push(("send_batchable".into(), "TIMEOUT".into(), after_b)),
+                                }
+                                step!("sender.close", sender.close());
+                            }
+                        }
+                        match r {
+                            Err(_) => ops.push(("attach receiver".into(), "TIMEOUT".into(), after_r)),
+                            Ok(Err(e)) => ops.push(("attach receiver".into(), format!("err:{:?}", e), after_r)),
+                            Ok(Ok(mut receiver)) => {
+                                ops.push(("attach receiver".into(), "ok".into(), after_r));
+                                let after = p.inject_fired();
+                                match tokio::time::timeout(OP_TIMEOUT, receiver.recv::<Value>()).await {
+                                    Ok(Ok(d)) => {
+                                        ops.push(("recv".into(), "ok".into(), after));
+                                        step!("accept", receiver.accept(&d));
+                                    }
+                                    Ok(Err(e)) => ops.push(("recv".into(), format!("err:{:?}", e), after)),
+                                    Err(_) => ops.push(("recv".into(), "TIMEOUT".into(), after)),
+                                }
+                                step!("receiver.close", receiver.close());
+                            }
+                        }
+                        step!("session.end", session.end());
+                    }
+                }
+                step!("connection.close", conn.close());
+            }
+        }
+        ops
+    });
+    // ---- the scripted peer answers at every quiescent point; once the library's receiver has credit it gets one message
+    let start = tokio::time::Instant::now();
+    let mut delivered = false;
+    let mut log_seen = 0usize;
+    let mut cum0 = 0usize;
+    loop {
+        tokio::time::sleep(Duration::from_millis(1)).await;
+        // (bookkeeping for the reference run: which moments exist and what the peer had sent by then)
+        let log = pipe.log();
+        for e in &log[log_seen..] {
+            if e.dir == 0 {
+                cum0 += e.bytes.len();
+                let mut ps = PeerSent::default();
+                for f in peer.trace.iter().filter(|f| f.dir == vlib::peer::Dirn::FromPeer) {
+                    match f.perf() {
+                        Some(Performative::Open(_)) => ps.open = true,
+                        Some(Performative::Begin(_)) => ps.begin = true,
+                        Some(Performative::Attach(a)) if a.name == "c-s" => ps.attach_s = true,
+                        Some(Performative::Attach(_)) => ps.attach_r = true,
+                        Some(Performative::Detach(d)) if d.handle.0 == 0 => ps.detach_s = true,
+                        Some(Performative::Detach(_)) => ps.detach_r = true,
+                        Some(Performative::End(_)) => ps.end = true,
+                        Some(Performative::Close(_)) => ps.close = true,
+                        _ => {}
+                    }
+                }
+                obs.points.push((cum0, ps));
+            }
+        }
+        log_seen = log.len();
+        peer.pump();
+        if !delivered && !peer.close_sent {
+            let ready = peer.links.iter().find(|l| l.name == "c-r" && l.credit > 0 && !l.detached && !l.detach_sent).map(|l| l.our_handle);
+            let sess_open = peer.sessions.get(&0).map(|s| !s.end_sent).unwrap_or(false);
+            if let (Some(h), true) = (ready, sess_open) {
+                let payload = serde_amqp::to_vec(&fe2o3_amqp_types::messaging::message::__private::Serializable(Message::builder().value("from the peer").build())).unwrap();
+                let t = Transfer {
+                    handle: Handle(h),
+                    delivery_id: Some(0),
+                    delivery_tag: Some(serde_bytes::ByteBuf::from(b"p0".to_vec())),
+                    message_format: Some(0),
+                    settled: Some(false),
+                    more: false,
+                    rcv_settle_mode: None,
+                    state: None,
+                    resume: false,
+                    aborted: false,
+                    batchable: false,
+                };
+                peer.send_perf(0, Performative::Transfer(t), &payload);
+                delivered = true;
+            }
+        }
+        if client.is_finished() {
+            break;
+        }
+        if start.elapsed() > OP_TIMEOUT * 20 {
+            obs.client_hung = true;
+            break;
+        }
+    }
+    if obs.client_hung {
+        client.abort();
+    } else if let Ok(ops) = client.await {
+        obs.ops = ops;
+    }
+    settle(&mut peer, 2).await;
+    obs.fired = pipe.inject_fired();
+    obs.alive_tasks_end = tokio::runtime::Handle::current().metrics().num_alive_tasks();
+    obs.trace = trace_to_strings(&peer.trace);
+    obs
+}
+
+fn judge_c(at: usize, k: CK, o: &CObs, panics: &[String]) -> Vec<(String, String)> {
+    let mut f = vec![];
+    let what = format!("peer sends {:?} at the moment the library has written {at} bytes", k);
+    let all = || format!("client ops {:?}", o.ops);
+    for p in panics.iter().filter(|p| !p.contains("vcheck/src")) {
+        f.push((format!("panic peer-{:?}", k), format!("{what}: a library task panicked: {p}")));
+    }
+    if o.client_hung {
+        f.push((format!("client-hangs peer-{:?}", k), format!("{what}: the client conversation never finished")));
+    }
+    for (name, r, _) in &o.ops {
+        if r == "TIMEOUT" {
+            f.push((format!("client-op-hangs op={name} peer-{:?}", k), format!("{what}: client {name} never completed; {}", all())));
+        }
+    }
+    // data-path operations STARTED after the peer's frame had been delivered fail when their scope stopped
+    // (recv may still hand out a message that had arrived before)
+    for (name, r, after) in &o.ops {
+        let on_sender = matches!(name.as_str(), "send small" | "send multi-frame" | "send_batchable" | "send after batchable");
+        let affected = match name.as_str() {
+            "begin" => k.conn(),
+            "attach sender" | "attach receiver" => k.conn() || k.sess(),
+            _ if on_sender => k.conn() || k.sess() || k.on_s(),
+            _ => false,
+        };
+        if *after && affected && r == "ok" {
+            f.push((format!("op-after-fault-succeeds op={name} peer-{:?}", k), format!("{what}: client {name} was started after that and returned Ok; {}", all())));
+        }
+    }
+    // the first operation on a handle that fails after the peer's frame says which scope stopped and why.
+    // Judged only if the application had not itself begun to tear that scope (or an enclosing one) down.
+    let own_teardown_before = |scope_ops: &[&str]| o.ops.iter().any(|(n, _, after)| scope_ops.contains(&n.as_str()) && !*after);
+    let first_err = |names: &[&str]| o.ops.iter().find(|(n, r, _)| names.contains(&n.as_str()) && r.starts_with("err:")).map(|(n, r, _)| (n.clone(), r.clone()));
+    let mut firsts = vec![];
+    if (k.conn() || k.sess() || k.on_s()) && !own_teardown_before(&["sender.close", "session.end", "connection.close"]) {
+        if let Some(x) = first_err(&["send small", "send multi-frame", "send_batchable", "send after batchable"]) {
+            firsts.push(x);
+        }
+    }
+    if (k.conn() || k.sess() || k.on_r()) && !own_teardown_before(&["receiver.close", "session.end", "connection.close"]) {
+        if let Some(x) = first_err(&["recv"]) {
+            firsts.push(x);
+        }
+    }
+    for (name, r) in firsts {
+        if k.carries() && !r.contains(COND_DBG) {
+            f.push((format!("peer-error-lost op={name} peer-{:?}", k), format!("{what}: the first failing {name} reports {r}; {}", all())));
+        }
+        let ok = if k.conn() {
+            r.contains("Connection")
+        } else if k.sess() {
+            r.contains("Session") || r.contains("RemoteEnded")
+        } else {
+            r.contains("Detach") || r.contains("RemoteClosed") || r.contains("Closed")
+        };
+        if !ok {
+            f.push((format!("wrong-scope op={name} peer-{:?}", k), format!("{what}: the first failing {name} reports {r}, which does not name the scope that stopped; {}", all())));
+        }
+    }
+    if k == CK::CloseErr {
+        if let Some((_, r, _)) = o.ops.iter().find(|(n, _, _)| n == "connection.close") {
+            if !r.contains(COND_DBG) {
+                f.push(("connection-handle-lost-peer-error peer-CloseErr".into(), format!("{what}: connection.close() reports {r}; {}", all())));
+            }
+        }
+    }
+    if k == CK::EndErr && !own_teardown_before(&["connection.close"]) {
+        if let Some((_, r, _)) = o.ops.iter().find(|(n, _, _)| n == "session.end") {
+            if !r.contains(COND_DBG) {
+                f.push(("session-handle-lost-peer-error peer-EndErr".into(), format!("{what}: session.end() reports {r}; {}", all())));
+            }
+        }
+    }
+    if o.alive_tasks_end > 0 {
+        f.push((format!("engine-tasks-alive peer-{:?}", k), format!("{what}: {} task(s) still alive after the conversation finished", o.alive_tasks_end)));
+    }
+    f
+}
+
+fn legal(k: CK, ps: &PeerSent) -> bool {
+    if ps.close || !ps.open {
+        return false;
+    }
+    match k {
+        CK::Close | CK::CloseErr => true,
+        CK::End | CK::EndErr => ps.begin && !ps.end,
+        CK::DetachS | CK::DetachSErr | CK::DetachSOpenErr => ps.begin && !ps.end && ps.attach_s && !ps.detach_s,
+        CK::DetachR | CK::DetachRErr | CK::DetachROpenErr => ps.begin && !ps.end && ps.attach_r && !ps.detach_r,
+    }
+}
+
+// ================================================================================================ driver
+pub fn run(ctx: &Ctx) -> Outcome {
+    let mut out = Outcome::new("fault_enumeration");
+    if let Some(p) = &ctx.replay {
+        return replay(p, out);
+    }
+    // ---- Part B
+    let casesb: Vec<(Pending, Flt)> = PENDINGS.iter().flat_map(|p| FAULTS.iter().map(move |f| (*p, *f))).collect();
+    let resb = par_map(&casesb, ctx.threads, |_, (pd, flt)| {
+        let (pd, flt) = (*pd, *flt);
+        let scen: Scenario<BObs> = Arc::new(move || Box::pin(scenario_b(pd, flt)));
+        let ex = run_exec(vec![], &RunCfg::none(), &scen);
+        (ex.out, ex.panics, ex.spun, ex.watchdog)
+    });
+    let mut distinct = std::collections::HashSet::new();
+    let mut really_pending = 0u64;
+    let mut samples = vec![];
+    for ((pd, flt), (o, panics, spun, wd)) in casesb.iter().zip(resb) {
+        let rj = json!({"part": "B", "pending": format!("{:?}", pd), "fault": format!("{:?}", flt)});
+        if spun {
+            out.violation(format!("spin fault={:?}", flt), format!("pending={:?} fault={:?}: busy loop", pd, flt), rj.clone());
+        }
+        match o {
+            None => {
+                if wd {
+                    out.violation(format!("real-time-hang fault={:?}", flt), format!("pending={:?}: the execution did not finish in real time", pd), rj.clone());
+                } else {
+                    out.machinery_errors.push(format!("part B scenario died: {:?}", panics));
+                }
+            }
+            Some(o) => {
+                if let Some(m) = &o.machinery {
+                    out.machinery_errors.push(m.clone());
+                    continue;
+                }
+                if o.pending_was_pending {
+                    really_pending += 1;
+                }
+                distinct.insert(h64(&(pd, flt, o.pending_result.split(':').next().map(|s| s.to_string()), o.followups.iter().map(|(n, r)| (n.clone(), r.split('(').next().unwrap_or("").to_string())).collect::<Vec<_>>())));
+                if samples.len() < 2 && o.pending_was_pending {
+                    samples.push(json!({"case": rj, "pending_result": o.pending_result, "followups": o.followups}));
+                }
+                for (s, d) in judge_b(*pd, *flt, &o, &panics) {
+                    let mut r = rj.clone();
+                    r["trace"] = json!(o.trace);
+                    out.violation(s, d, r);
+                }
+            }
+        }
+    }
+    // ---- Part A: measure, then cut everywhere
+    let base = {
+        let scen: Scenario<AObs> = Arc::new(|| Box::pin(scenario_a(None)));
+        run_exec(vec![], &RunCfg::none(), &scen)
+    };
+    let Some(base_obs) = base.out else {
+        out.machinery_errors.push(format!("part A reference conversation died: {:?}", base.panics));
+        return out;
+    };
+    if base_obs.ops.iter().any(|(_, r, _)| r != "ok") || base_obs.listener.iter().any(|l| l.contains("TIMEOUT")) {
+        out.machinery_errors.push(format!("part A reference conversation does not complete cleanly: {:?} / {:?}", base_obs.ops, base_obs.listener));
+    }
+    let step = 1;
+    let mut faults = vec![];
+    for dir in 0..2usize {
+        for at in (0..=base_obs.bytes[dir]).step_by(step) {
+            faults.push(Fault { dir, at, mode: FaultMode::Eof });
+            faults.push(Fault { dir, at, mode: FaultMode::Reset });
+            {
+                faults.push(Fault { dir, at, mode: FaultMode::StallThenEof(Duration::from_secs(30)) });
+            }
+        }
+    }
+    let resa = par_map(&faults, ctx.threads, |_, flt| {
+        let flt2 = *flt;
+        let scen: Scenario<AObs> = Arc::new(move || Box::pin(scenario_a(Some(flt2))));
+        let ex = run_exec(vec![], &RunCfg::none(), &scen);
+        (ex.out, ex.panics, ex.spun, ex.watchdog)
+    });
+    let mut cut_hit = 0u64;
+    for (flt, (o, panics, spun, wd)) in faults.iter().zip(resa) {
+        let rj = json!({"part": "A", "dir": flt.dir, "at": flt.at, "mode": format!("{:?}", flt.mode)});
+        if spun {
+            out.violation("spin transport-cut".to_string(), format!("{:?}: busy loop", flt), rj.clone());
+        }
+        match o {
+            None => {
+                if wd {
+                    out.violation("real-time-hang transport-cut".to_string(), format!("{:?}: did not finish in real time", flt), rj);
+                } else {
+                    out.machinery_errors.push(format!("part A scenario died at {:?}: {:?}", flt, panics));
+                }
+            }
+            Some(o) => {
+                if o.broken {
+                    cut_hit += 1;
+                }
+                distinct.insert(h64(&(flt.dir, o.ops.iter().map(|(n, r, a)| (n.clone(), r.split('(').next().unwrap_or("").to_string(), *a)).collect::<Vec<_>>())));
+                for (s, d) in judge_a(flt, &o, &panics) {
+                    let mut r = rj.clone();
+                    r["client_ops"] = json!(o.ops);
+                    r["listener"] = json!(o.listener);
+                    out.violation(s, d, r);
+                }
+            }
+        }
+    }
+    samples.push(json!({"part": "A reference conversation", "client_ops": base_obs.ops, "bytes": base_obs.bytes}));
+    // ---- Part C: peer-initiated close/end/detach behind every write of the library
+    let basec = {
+        let scen: Scenario<CObs> = Arc::new(|| Box::pin(scenario_c(None)));
+        run_exec(vec![], &RunCfg::none(), &scen)
+    };
+    let mut casesc: Vec<(usize, CK)> = vec![];
+    let mut c_points = 0usize;
+    match &basec.out {
+        None => out.machinery_errors.push(format!("part C reference conversation died: {:?}", basec.panics)),
+        Some(b) => {
+            if b.client_hung || b.ops.iter().any(|(_, r, _)| r != "ok") || b.alive_tasks_end > 0 {
+                out.machinery_errors.push(format!("part C reference conversation does not complete cleanly: {:?} alive={}", b.ops, b.alive_tasks_end));
+            }
+            c_points = b.points.len();
+            for (at, ps) in &b.points {
+                for k in CKS {
+                    if legal(k, ps) {
+                        casesc.push((*at, k));
+                    }
+                }
+            }
+            samples.push(json!({"part": "C reference conversation", "client_ops": b.ops, "moments": b.points.iter().map(|(a, _)| *a).collect::<Vec<_>>()}));
+        }
+    }
+    let resc = par_map(&casesc, ctx.threads, |_, (at, k)| {
+        let (at, k) = (*at, *k);
+        let scen: Scenario<CObs> = Arc::new(move || Box::pin(scenario_c(Some((at, k)))));
+        let ex = run_exec(vec![], &RunCfg::none(), &scen);
+        (ex.out, ex.panics, ex.spun, ex.watchdog)
+    });
+    let mut c_fired = 0u64;
+    for ((at, k), (o, panics, spun, wd)) in casesc.iter().zip(resc) {
+        let rj = json!({"part": "C", "at": at, "kind": format!("{:?}", k)});
+        if spun {
+            out.violation(format!("spin peer-{:?}", k), format!("peer {:?} at {at}: busy loop", k), rj.clone());
+        }
+        match o {
+            None => {
+                if wd {
+                    out.violation(format!("real-time-hang peer-{:?}", k), format!("peer {:?} at {at}: did not finish in real time", k), rj);
+                } else {
+                    out.machinery_errors.push(format!("part C scenario died at {at} {:?}: {:?}", k, panics));
+                }
+            }
+            Some(o) => {
+                if !o.fired {
+                    out.machinery_errors.push(format!("part C: the injection at {at} {:?} never fired", k));
+                    continue;
+                }
+                c_fired += 1;
+                distinct.insert(h64(&(*k, o.ops.iter().map(|(n, r, a)| (n.clone(), r.split('(').next().unwrap_or("").to_string(), *a)).collect::<Vec<_>>())));
+                for (s, d) in judge_c(*at, *k, &o, &panics) {
+                    let mut r = rj.clone();
+                    r["trace"] = json!(o.trace);
+                    out.violation(s, d, r);
+                }
+            }
+        }
+    }
+    // ---- Part D: the same B and C cases under every task schedule / select order with at most one deviation
+    // (thorough: two) from the default; quick keeps to the data-path cases of B and every 3rd case of C
+    let deadline = std::time::Instant::now() + Duration::from_secs_f64((ctx.budget_s as f64 * 0.8).max(20.0));
+    let bounds = if ctx.quick() { Bounds::new(1) } else { Bounds::new(2) };
+    let cfg = RunCfg::default();
+    let mut d_exec = 0u64;
+    let mut d_cases = 0u64;
+    let mut d_complete = true;
+    let mut d_distinct = 0usize;
+    for (i, (pd, flt)) in casesb.iter().enumerate() {
+        if ctx.quick() && (is_teardown(*pd) || i % 2 == 1) {
+            continue;
+        }
+        let (pd, flt) = (*pd, *flt);
+        let scen: Scenario<BObs> = Arc::new(move || Box::pin(scenario_b(pd, flt)));
+        let fails = std::sync::Mutex::new(vec![]);
+        let st = explore(&cfg, &bounds, &scen, ctx.threads, deadline, |e| {
+            let mut f = vec![];
+            if let Some(o) = &e.out {
+                if o.machinery.is_none() {
+                    f = judge_b(pd, flt, o, &e.panics);
+                }
+            } else if e.watchdog {
+                f.push((format!("real-time-hang fault={:?}", flt), "did not finish in real time".to_string()));
+            }
+            if e.spun {
+                f.push((format!("spin fault={:?}", flt), "busy loop".to_string()));
+            }
+            if !f.is_empty() {
+                fails.lock().unwrap().push((f, e.points.clone()));
+            }
+            h64(&e.out.as_ref().map(|o| (&o.pending_result, &o.followups)))
+        });
+        d_exec += st.executions;
+        d_cases += 1;
+        d_complete &= st.exhaustive;
+        d_distinct += st.distinct_obs;
+        for (f, points) in fails.into_inner().unwrap() {
+            for (sg, d) in f {
+                out.violation(sg, format!("(under a non-default schedule) {d}"), json!({"part": "B", "pending": format!("{:?}", pd), "fault": format!("{:?}", flt), "schedule": points}));
+            }
+        }
+        for d in st.divergences.iter().take(2) {
+            out.machinery_errors.push(format!("part D divergence: {d}"));
+        }
+    }
+    for (i, (at, k)) in casesc.iter().enumerate() {
+        if ctx.quick() && i % 3 != 0 {
+            continue;
+        }
+        let (at, k) = (*at, *k);
+        let scen: Scenario<CObs> = Arc::new(move || Box::pin(scenario_c(Some((at, k)))));
+        let fails = std::sync::Mutex::new(vec![]);
+        let st = explore(&cfg, &bounds, &scen, ctx.threads, deadline, |e| {
+            let mut f = vec![];
+            if let Some(o) = &e.out {
+                // (under another schedule the library may write in different portions: an injection that
+                // does not fire is simply not a case)
+                if o.fired {
+                    f = judge_c(at, k, o, &e.panics);
+                }
+            } else if e.watchdog {
+                f.push((format!("real-time-hang peer-{:?}", k), "did not finish in real time".to_string()));
+            }
+            if e.spun {
+                f.push((format!("spin peer-{:?}", k), "busy loop".to_string()));
+            }
+            if !f.is_empty() {
+                fails.lock().unwrap().push((f, e.points.clone()));
+            }
+            h64(&e.out.as_ref().map(|o| &o.ops))
+        });
+        d_exec += st.executions;
+        d_cases += 1;
+        d_complete &= st.exhaustive;
+        d_distinct += st.distinct_obs;
+        for (f, points) in fails.into_inner().unwrap() {
+            for (sg, d) in f {
+                out.violation(sg, format!("(under a non-default schedule) {d}"), json!({"part": "C", "at": at, "kind": format!("{:?}", k), "schedule": points}));
+            }
+        }
+    }
+    out.set("part_d_cases_explored_under_schedules", d_cases);
+    out.set("part_d_schedule_executions", d_exec);
+    out.set("part_d_distinct_outcomes_summed", d_distinct as u64);
+    out.set("part_d_bound", bounds.describe());
+    out.set("part_d_all_complete", d_complete);
+    out.set("part_c_moments", c_points as u64);
+    out.set("part_c_cases", casesc.len() as u64);
+    out.set("part_c_injections_that_fired", c_fired);
+    out.set("evaluations", (casesb.len() + faults.len() + casesc.len()) as u64 + d_exec);
+    out.set("distinct_nontrivial", distinct.len() as u64);
+    out.set("part_b_cases", casesb.len() as u64);
+    out.set("part_b_cases_with_operation_really_pending", really_pending);
+    out.set("part_a_cut_points", faults.len() as u64);
+    out.set("part_a_cuts_that_fired", cut_hit);
+    out.set("part_a_conversation_bytes", json!(base_obs.bytes));
+    out.set("rule", "Part A: reference conversation client<->listener (open, begin, attach sender+receiver, small / multi-frame / batchable sends, recv+accept, closes, end, close) cut at every byte offset of either direction x {EOF, reset, stall 30 s then EOF}. Part B: 9 kinds of operation in progress x 13 faults (peer close/end/detach with and without error, closing and non-closing, transport EOF/reset, close-with-error followed by reset or by a dropped connection whose shutdown fails), followed by a data-path and a teardown call on every handle. Part C: reference conversation client<->scripted peer; behind EVERY write call of the library (= every frame it sends) the peer sends close / end / closing or non-closing detach of either link, with and without error, wherever the protocol allows the peer to do so at that moment. Every public call runs under a 120 s virtual-time limit. distinct = distinct (fault class, per-operation result class) vectors");
+    out.set("samples", json!(samples));
+    out.set("exhaustive", d_complete);
+    out.set("bound", format!("part A byte step {step}; part B full product"));
+    out.assume("a call counts as hanging if it has not completed after 120 s of virtual time with the peer answering everything it is asked");
+    out.assume("'errors say whether the link, the session or the connection stopped': judged on the Debug rendering of the error of the first data-path call on the affected handle (must mention the stopped scope and, when the peer supplied one, its condition)");
+    out
+}
+
+fn replay(p: &std::path::Path, mut out: Outcome) -> Outcome {
+    let s = std::fs::read_to_string(p).unwrap_or_default();
+    let j: serde_json::Value = serde_json::from_str(&s).unwrap_or_default();
+    let r = &j["replay"];
+    if r["part"] == "B" {
+        let pd = PENDINGS.iter().copied().find(|p| format!("{:?}", p) == r["pending"].as_str().unwrap_or("")).unwrap_or(Pending::Idle);
+        let flt = FAULTS.iter().copied().find(|p| format!("{:?}", p) == r["fault"].as_str().unwrap_or("")).unwrap_or(Flt::Eof);
+        let scen: Scenario<BObs> = Arc::new(move || Box::pin(scenario_b(pd, flt)));
+        let ex = run_exec(vec![], &RunCfg::none(), &scen);
+        if let Some(o) = ex.out {
+            for l in &o.trace {
+                println!("  {l}");
+            }
+            println!("  pending -> {}; followups {:?}; alive {}", o.pending_result, o.followups, o.alive_tasks_end);
+            for (s, d) in judge_b(pd, flt, &o, &ex.panics) {
+                println!("  FAIL {s}: {d}");
+                out.violation(s, d, r.clone());
+            }
+        }
+    } else if r["part"] == "C" {
+        let k = CKS.iter().copied().find(|p| format!("{:?}", p) == r["kind"].as_str().unwrap_or("")).unwrap_or(CK::Close);
+        let at = r["at"].as_u64().unwrap_or(0) as usize;
+        let scen: Scenario<CObs> = Arc::new(move || Box::pin(scenario_c(Some((at, k)))));
+        let ex = run_exec(vec![], &RunCfg::none(), &scen);
+        if let Some(o) = ex.out {
+            for l in &o.trace {
+                println!("  {l}");
+            }
+            println!("  client ops {:?}\n  fired {} alive {}", o.ops, o.fired, o.alive_tasks_end);
+            for (s, d) in judge_c(at, k, &o, &ex.panics) {
+                println!("  FAIL {s}: {d}");
+                out.violation(s, d, r.clone());
+            }
+        }
+    } else {
+        let mode = match r["mode"].as_str().unwrap_or("") {
+            "Eof" => FaultMode::Eof,
+            "Reset" => FaultMode::Reset,
+            _ => FaultMode::StallThenEof(Duration::from_secs(30)),
+        };
+        let flt = Fault { dir: r["dir"].as_u64().unwrap_or(0) as usize, at: r["at"].as_u64().unwrap_or(0) as usize, mode };
+        let scen: Scenario<AObs> = Arc::new(move || Box::pin(scenario_a(Some(flt))));
+        let ex = run_exec(vec![], &RunCfg::none(), &scen);
+        if let Some(o) = ex.out {
+            println!("  client ops {:?}\n  listener {:?}\n  alive {}", o.ops, o.listener, o.alive_tasks_end);
+            for (s, d) in judge_a(&flt, &o, &ex.panics) {
+                println!("  FAIL {s}: {d}");
+                out.violation(s, d, r.clone());
+            }
+        }
+    }
+    out.set("evaluations", 1);
+    out.set("distinct_nontrivial", 0);
+    out.set("rule", "replay");
+    out.set("samples", json!([r]));
     out
 }
